@@ -180,14 +180,14 @@ func c03Configs(c *Ctx) []c03Cfg {
 	for _, k := range kinds {
 		for _, fifo := range []bool{false, true} {
 			for _, cp := range caps {
-				out = append(out, c03Cfg{listCfg{k, fifo, cp, false, false, cp, false, false}, "", false})
+				out = append(out, c03Cfg{listCfg{k, fifo, cp, false, false, cp, false, false, false}, "", false})
 				if k == "LIST" || k == "AND" || !c.Quick() {
-					out = append(out, c03Cfg{listCfg{k, fifo, cp, false, false, cp, false, false}, "", true})
-					out = append(out, c03Cfg{listCfg{k, fifo, cp, false, false, cp, true, false}, "", false})
+					out = append(out, c03Cfg{listCfg{k, fifo, cp, false, false, cp, false, false, false}, "", true})
+					out = append(out, c03Cfg{listCfg{k, fifo, cp, false, false, cp, true, false, true}, "", false})
 				}
 			}
 			for _, ctor := range []string{"", "0", "-1"} {
-				out = append(out, c03Cfg{listCfg{k, fifo, 0, false, false, 3, false, false}, ctor, false})
+				out = append(out, c03Cfg{listCfg{k, fifo, 0, false, false, 3, false, false, false}, ctor, false})
 			}
 		}
 	}
